@@ -198,9 +198,14 @@ def run(tier):
     notes = []
 
     # ---- P1 on the reference model: the property's invariants -------------
-    ref_cfgs = ["MC_VarRef.cfg", "MC_VarRef_pos.cfg"] + (["MC_VarRef_full.cfg", "MC_VarRef_big.cfg"] if tier == "thorough" else [])
-    for cfg in ([] if DEV_CACHE else ref_cfgs):
-        r = vlib.tlc("MC_VarRef", cfg, workers=8, timeout=2400)
+    # (MC_VarRef*: with the ghost of the pushed contexts; MC_VarRef_abs*: VarRef alone, incl. soundness of
+    # the reconstruction Abstract used by the trace judgement)
+    ref_cfgs = [("VarRef", "MC_VarRef_abs.cfg"), ("MC_VarRef", "MC_VarRef.cfg"), ("MC_VarRef", "MC_VarRef_pos.cfg")]
+    if tier == "thorough":
+        ref_cfgs += [("VarRef", "MC_VarRef_abs2.cfg"), ("MC_VarRef", "MC_VarRef_full.cfg"),
+                     ("MC_VarRef", "MC_VarRef_big.cfg")]
+    for module, cfg in ([] if DEV_CACHE else ref_cfgs):
+        r = vlib.tlc(module, cfg, workers=8, timeout=2400)
         vlib.tlc_must_pass(r, f"invariants of the reference model ({cfg})")
         vlib.log(f"[p1] {cfg}: VarRef invariants hold on {r.distinct} states / {r.generated} transitions, "
                  f"depth {r.depth}, {r.wall:.1f}s")
@@ -285,7 +290,7 @@ def run(tier):
         "rule": "one step per (distinct state of the bounded VarSet model rebuilt on the real VariableSet, "
                 "operation of the alphabet); random-history steps and generated scripts counted separately",
         "exhaustive": True,
-        "configs": [c[0] for c in CONFIGS[tier]] + ref_cfgs,
+        "configs": [c[0] for c in CONFIGS[tier]] + [c[1] for c in ref_cfgs],
         "replayed_states": replayed_states,
         "replayed_steps": replayed_steps,
         "random_history_steps": random_steps,
